@@ -401,7 +401,7 @@ pub fn gen_instance(rng: &mut Rng, o: &GenOpts) -> InstSpec {
         let nd = 1 + rng.usize((nv - 1).min(2));
         let dep_ids: Vec<u64> = free_ids.drain(..nd).collect();
         for d in dep_ids {
-            let f = gen_func(rng, &free_ids, 2);
+            let f = gen_func(rng, &free_ids, o.max_degree.min(2));
             deps.push((d, f));
         }
     }
